@@ -34,6 +34,10 @@ pub const ELEMENTS: &[&str] = &[
     "{% endcapture %}", "{% case x %}", "{% when 1 %}", "{% endcase %}", "{% ifchanged %}",
     "{% endifchanged %}", "{% break %}", "{% assign a = 1 %}", "{% cycle 1, 2 %}", "{{ x }}",
     "{{ x | upcase }}", "{{", "{%", "text", "{% include 'p' %}", "'", "{%- endraw -%}",
+    // multi-line string literals and quote fragments: an element that spans a line break, followed
+    // by invalid markup on its last line, is what reaches the line-based strict re-parse of
+    // InvalidLiquid tokens with a line prefix that can re-pair quotes
+    "{{ \"\n", "\" }}", "{{ '\n", "' }}", "{{ ' }}", "{{ \" }}", "{{ x' }}", "{{ x\" }}", "\n", "{% if \"\n", "\" %}",
 ];
 
 struct Parsers {
